@@ -314,8 +314,10 @@ def check_token(scn, meta, seed):
     mons = [NotifyMonitor(PROP, check_shape=False), BrokerMonitor(carrier=False)]
     res = run_scenario(scn, seed, monitors=mons, before_run=before, horizon=1500)
     for f in res.findings:
-        if f["property"] in (PROP, "C03") and f["rule"] in ("terminal-twice", "running-twice", "never-terminal", "ack-twice"):
-            findings.append(dict(f, property=PROP))
+        if f["property"] in (PROP, "C03") and f["rule"] in ("terminal-twice", "running-twice", "never-terminal", "ack-twice",
+                                                            "never-acked", "leak"):
+            # duplicate, late and superseded callbacks / replies are orphaned responses: they too are acknowledged
+            findings.append(dict(f, property=PROP, witness=f.get("witness") or stream))
     w = res.world
 
     def term(name):
